@@ -177,6 +177,12 @@ pub struct World {
     /// bytes per client address: (received by the server from it, sent by the server to it)
     pub bytes: HashMap<SocketAddr, (u64, u64)>,
     pub handshake_done: HashMap<SocketAddr, bool>,
+    untracked_reported: bool,
+    /// nonces the server has sent to each address in SYN-ACKs (from the wire)
+    pub synack_nonces: HashMap<SocketAddr, Vec<u32>>,
+    /// addresses that returned one of those nonces in a handshake ACK delivered to the server:
+    /// the only proof of reachability there is, independent of what the server believes
+    pub verified: HashMap<SocketAddr, bool>,
     pub violations: Vec<Violation>,
     pub c: Counters,
     pub panicked: bool,
@@ -261,6 +267,9 @@ impl World {
             keep_trace: true,
             bytes: HashMap::new(),
             handshake_done: HashMap::new(),
+            untracked_reported: false,
+            synack_nonces: HashMap::new(),
+            verified: HashMap::new(),
             violations: Vec::new(),
             c: Counters::default(),
             panicked: false,
@@ -411,6 +420,14 @@ impl World {
                         self.server.active_now -= 1;
                     }
                 }
+                if let RFrame::SynAck { nonce, .. } = f {
+                    if d.src == self.server.addr {
+                        let v = self.synack_nonces.entry(d.dst).or_default();
+                        if !v.contains(nonce) {
+                            v.push(*nonce);
+                        }
+                    }
+                }
                 if let RFrame::Syn { nonce, .. } = f {
                     if let Some(c) = self.clients.iter_mut().find(|c| c.addr == d.src && c.client.is_some()) {
                         c.syn_nonce = Some(*nonce);
@@ -510,6 +527,11 @@ impl World {
                 if p.dst == self.server.addr {
                     let e = self.bytes.entry(p.src).or_insert((0, 0));
                     e.0 += p.data.len() as u64;
+                    if let Some(RFrame::Ack { nonce_ack }) = decode(&p.data) {
+                        if self.synack_nonces.get(&p.src).map_or(false, |v| v.contains(&nonce_ack)) {
+                            self.verified.insert(p.src, true);
+                        }
+                    }
                 }
                 if self.keep_trace {
                     self.delivered.push(DeliveredRec { t_ns: self.now_ns, src: p.src, dst: p.dst, frame: decode(&p.data), len: p.data.len(), injected: p.injected });
@@ -657,6 +679,24 @@ impl World {
                 }
             }
         }
+        // a connection the server has reported and not ended is one it still knows: stale timers
+        // or leftovers of earlier handshakes from the same address must not take it away
+        {
+            let srv = self.server.server.as_ref().unwrap();
+            let mut lost: Option<SocketAddr> = None;
+            for (a, st) in self.server.conn_state.iter() {
+                if *st == 1 && srv.client(a).is_none() && lost.map_or(true, |l| *a < l) {
+                    lost = Some(*a);
+                }
+            }
+            if let Some(a) = lost {
+                if !self.untracked_reported {
+                    self.untracked_reported = true;
+                    let t = self.now_ns / MS;
+                    self.viol("C07", "established-connection-untracked", format!("Server::client({}) is None at t={} ms although the server reported Connect for that address and no Disconnect / Error since: the established connection was removed from the server's table", a, t));
+                }
+            }
+        }
         self.server.max_tracked_seen = self.server.max_tracked_seen.max(tracked);
         if tracked > self.server.max_total {
             let m = self.server.max_total;
@@ -665,7 +705,7 @@ impl World {
         // C18: unverified addresses must have received fewer bytes than they sent
         let mut worst: Option<(SocketAddr, u64, u64)> = None;
         for (a, (inb, outb)) in self.bytes.iter() {
-            if *outb > 0 && *outb >= *inb && !self.handshake_done.get(a).copied().unwrap_or(false) {
+            if *outb > 0 && *outb >= *inb && !self.verified.get(a).copied().unwrap_or(false) {
                 if worst.map_or(true, |w| *a < w.0) {
                     worst = Some((*a, *inb, *outb));
                 }
